@@ -45,9 +45,10 @@ import (
 // GetConnectionID), so enumeration does not depend on the id generator.
 type c07Pipe struct {
 	*vk.BufConn
-	id        string
-	gate      atomic.Pointer[c07Gate]
-	closeGate atomic.Pointer[c07CloseGate]
+	id         string
+	gate       atomic.Pointer[c07Gate]
+	closeGate  atomic.Pointer[c07CloseGate]
+	failWrites atomic.Bool // transient write error injected (config push)
 }
 
 // c07CloseGate makes closing a transport slow (network I/O): while armed, the first Close of a
@@ -83,6 +84,9 @@ type c07Gate struct {
 }
 
 func (p *c07Pipe) Write(b []byte) (int, error) {
+	if p.failWrites.Load() {
+		return 0, fmt.Errorf("c07: injected transient write error")
+	}
 	if g := p.gate.Load(); g != nil && g.armed.Load() {
 		g.inWrite.Add(1)
 		<-g.release
@@ -207,24 +211,25 @@ func (o c07Op) String() string {
 }
 
 type c07World struct {
-	run      *vk.Run
-	sm       *SessionManager
-	cancel   context.CancelFunc
-	clients  []int64
-	mu       sync.Mutex // guards slots/all/trace/seq in concurrent runs
-	slots    []*c07Conn
-	all      map[string]*c07Conn   // every connection of this world by harness key
-	byID     map[string][]*c07Conn // ... by connection id (several after an id was reused)
-	orphans  []*c07Conn            // concurrent runs: replaced connections whose adapter cleanup is played at the barrier
-	seq      int
-	trace    []string
-	prevReg  map[*c07Conn]bool
-	reported map[string]bool
-	left     int // connections that left the registry so far (evicted, closed, swept, converted)
-	base     ConnectionStats
-	conc     bool // concurrent phase: no per-op checks, no field reads
-	regOnly  bool // -race mix: registry/session API calls only (no packet handlers)
-	direct   bool // UpdateControlConnectionAuth was called directly (bypasses the eviction done by handleHandshake)
+	run       *vk.Run
+	sm        *SessionManager
+	cancel    context.CancelFunc
+	clients   []int64
+	mu        sync.Mutex // guards slots/all/trace/seq in concurrent runs
+	slots     []*c07Conn
+	all       map[string]*c07Conn   // every connection of this world by harness key
+	byID      map[string][]*c07Conn // ... by connection id (several after an id was reused)
+	orphans   []*c07Conn            // concurrent runs: replaced connections whose adapter cleanup is played at the barrier
+	seq       int
+	trace     []string
+	prevReg   map[*c07Conn]bool
+	reported  map[string]bool
+	left      int // connections that left the registry so far (evicted, closed, swept, converted)
+	base      ConnectionStats
+	conc      bool // concurrent phase: no per-op checks, no field reads
+	regOnly   bool // -race mix: registry/session API calls only (no packet handlers)
+	cloudMode int
+	direct    bool // UpdateControlConnectionAuth was called directly (bypasses the eviction done by handleHandshake)
 }
 
 // Client ids over the int64 range: ordinary 8-digit ids, ids that differ by 2^32 and 2^31,
@@ -261,6 +266,7 @@ func c07NewWorld(run *vk.Run, nslots, nclients, ctlCap, cloudMode int, pattern u
 	for i := 0; i < nclients; i++ {
 		w.clients = append(w.clients, c07ClientIDs[int(c07WorldSeq.Load())%len(c07ClientIDs)][i])
 	}
+	w.cloudMode = cloudMode
 	w.base = sm.GetConnectionStats()
 	w.seq = int(c07WorldSeq.Add(1)) * 1000
 	return w
@@ -340,10 +346,14 @@ func (w *c07World) ownerOf(k *ControlConnection) *c07Conn {
 	}
 	w.mu.Lock()
 	defer w.mu.Unlock()
-	for _, c := range w.byID[k.ConnID] {
+	cands := w.byID[k.ConnID]
+	for _, c := range cands {
 		if interface{}(k.Stream) == c.stream {
 			return c
 		}
+	}
+	if k.Stream == nil && len(cands) == 1 {
+		return cands[0] // the entry's stream was cleared (ControlConnection.Close): identify by id
 	}
 	return nil
 }
@@ -679,6 +689,17 @@ func (w *c07World) apply(op c07Op) bool {
 		_ = sm.GetClientRegistry().List()
 		_ = sm.GetClientRegistry().ListAuthenticated()
 		_ = sm.GetConnectionStats()
+	case "notify":
+		// configuration push to an online client (NotifyClientUpdate after a mapping change) whose
+		// write hits a transient error; needs cloud control (it is dereferenced unconditionally)
+		if w.conc || c.pipe == nil || w.cloudMode == 0 || reg == nil || !reg.Authenticated || sm.GetControlConnectionByClientID(reg.ClientID) != reg {
+			return false
+		}
+		w.log(op.String() + " config push with failing write")
+		c.pipe.failWrites.Store(true)
+		sm.NotifyClientUpdate(reg.ClientID)
+		c.pipe.failWrites.Store(false)
+		w.run.Count("config_push_write_failures", 1)
 	case "apiclose":
 		// CloseConnection from outside the connection's own read loop (API / other goroutine)
 		w.log(op.String())
@@ -734,7 +755,9 @@ func (w *c07World) check(op c07Op) {
 	}
 	// a harness connection is "returned" by a lookup iff the entry carries its stream
 	// (after a connection id was reused, two harness connections share one id)
-	carries := func(k *ControlConnection, c *c07Conn) bool { return k != nil && interface{}(k.Stream) == c.stream }
+	carries := func(k *ControlConnection, c *c07Conn) bool {
+		return k != nil && (interface{}(k.Stream) == c.stream || (k.Stream == nil && !c.shared.Load()))
+	}
 	if len(inList) != reg.Count() {
 		w.viol("C07:count-differs-from-list", op, map[string]any{"count": reg.Count(), "list": len(inList)})
 	}
@@ -925,7 +948,7 @@ func c07Alphabet(nslots, nclients int, reduced bool) []c07Op {
 		out = append(out, c07Op{"accept", s, -1}, c07Op{"fail", s, -1}, c07Op{"age", s, -1}, c07Op{"hb", s, -1},
 			c07Op{"unreg", s, -1}, c07Op{"close", s, -1})
 		if !reduced {
-			out = append(out, c07Op{"disc", s, -1})
+			out = append(out, c07Op{"disc", s, -1}, c07Op{"notify", s, -1})
 		}
 		for x := 0; x < nclients; x++ {
 			out = append(out, c07Op{"login", s, x}, c07Op{"auth", s, x})
@@ -984,7 +1007,7 @@ func TestVerifC07RegistryExhaustive(t *testing.T) {
 	depth := run.Pick(3, 4)
 	full := c07Alphabet(3, 2, false)
 	red := c07Alphabet(3, 2, true)
-	run.Rule(fmt.Sprintf("every sequence of enabled operations up to depth %d over the reduced alphabet (%d ops: without tunnel-type logins, disconnect commands and most kick targets) and up to depth %d over the full alphabet, over 3 connection slots and clients A,B from %d prefix states (cloud control: none / every call fails / healthy / every other call fails); full alphabet (%d ops): accept, failed handshake, control login as X (real handleHandshake incl. eviction of the previous holder), tunnel-type login as X, UpdateControlConnectionAuth(X), KickOldControlConnection(X,new), age (LastActiveAt into the past), heartbeat, stale sweep, Unregister (tunnel conversion), disconnect command, peer EOF (adapter cleanup), reuse (a new transport registered under the connection id of a live registered connection); an operation that is disabled in the current state (no effect) prunes its subtree; distinct = prefix + operation sequence; non-trivial = at least one connection left the registry", depth, len(red), depth-1, len(c07Prefixes()), len(full)))
+	run.Rule(fmt.Sprintf("every sequence of enabled operations up to depth %d over the reduced alphabet (%d ops: without tunnel-type logins, disconnect commands and most kick targets) and up to depth %d over the full alphabet, over 3 connection slots and clients A,B from %d prefix states (cloud control: none / every call fails / healthy / every other call fails); full alphabet (%d ops): accept, failed handshake, control login as X (real handleHandshake incl. eviction of the previous holder), tunnel-type login as X, UpdateControlConnectionAuth(X), KickOldControlConnection(X,new), age (LastActiveAt into the past), heartbeat, stale sweep, Unregister (tunnel conversion), disconnect command, configuration push with a failing write (NotifyClientUpdate), peer EOF (adapter cleanup), reuse (a new transport registered under the connection id of a live registered connection); an operation that is disabled in the current state (no effect) prunes its subtree; distinct = prefix + operation sequence; non-trivial = at least one connection left the registry", depth, len(red), depth-1, len(c07Prefixes()), len(full)))
 	run.Observe("alphabet_full", c07Names(full))
 	samples := 0
 	var seq []c07Op
@@ -1059,6 +1082,7 @@ func TestVerifC07RegistryExhaustive(t *testing.T) {
 	run.Floor("reuse_registered", 10)
 	run.Floor("swept_unauthenticated", 5)
 	run.Floor("swept_authenticated", 5)
+	run.Floor("config_push_write_failures", 20)
 }
 
 // ---------------------------------------------------------------------------
@@ -1104,6 +1128,7 @@ func TestVerifC07RegistryRandom(t *testing.T) {
 	run.Floor("sweep_spared_heartbeated_conn", 3)
 	run.Floor("cloud_faults_on_disconnect", 50)
 	run.Floor("reuse_registered", 20)
+	run.Floor("config_push_write_failures", 50)
 	run.Floor("register_at_cap", 2) // eviction of the oldest connection at the control-connection cap
 }
 
